@@ -329,6 +329,32 @@ template <class S, int D> void run_stream(const std::string &, const std::vector
     emit("stream_in", showv(a2) + " " + showv(b2));
     std::string rest; bool more = (bool)(is >> rest);
     if (!same_vec(a, a2) || !same_vec(b, b2) || is.bad() || more) ofail<S, D>("stream", showv(a) + " | " + showv(b), showv(a2) + " | " + showv(b2) + " text=" + text, "round trip");
+    // "stream output agrees with the component-wise definition" must hold for whatever format state the destination stream carries
+    // (the definition is  os << v[0] << " " << v[1] ...  on THAT stream): compare under a set of format configurations
+    {
+        typedef void (*Cfg)(std::ostream &);
+        static const Cfg cfgs[] = {
+            [](std::ostream &) {},
+            [](std::ostream &o) { o.setf(std::ios::fixed, std::ios::floatfield); o.precision(3); },
+            [](std::ostream &o) { o.setf(std::ios::scientific, std::ios::floatfield); o.precision(4); o.setf(std::ios::uppercase); },
+            [](std::ostream &o) { o.setf(std::ios::showpos); o.setf(std::ios::showpoint); },
+            [](std::ostream &o) { o.setf(std::ios::hex, std::ios::basefield); o.setf(std::ios::showbase); },
+            [](std::ostream &o) { o.setf(std::ios::oct, std::ios::basefield); },
+            [](std::ostream &o) { o.width(9); o.fill('*'); },
+            [](std::ostream &o) { o.width(7); o.fill('_'); o.setf(std::ios::left, std::ios::adjustfield); },
+            [](std::ostream &o) { o.width(8); o.fill('0'); o.setf(std::ios::internal, std::ios::adjustfield); o.setf(std::ios::showpos); },
+        };
+        int k = 0;
+        for (Cfg c : cfgs) {
+            std::ostringstream o1, o2;
+            c(o1); c(o2);
+            o1 << a;
+            o2 << a[0]; for (int i = 1; i < D; ++i) o2 << " " << a[i];
+            if (o1.str() != o2.str() || o1.width() != o2.width() || o1.flags() != o2.flags() || o1.precision() != o2.precision())
+                ofail<S, D>("stream_fmt", showv(a) + " config " + std::to_string(k), o1.str(), "component-wise insertion into the same stream gives " + o2.str());
+            ++k;
+        }
+    }
     // too few numbers: the extraction fails
     std::ostringstream o2; o2.precision(std::numeric_limits<S>::max_digits10);
     for (int i = 0; i + 1 < D; ++i) { if (i) o2 << " "; o2 << a[i]; }
